@@ -1,7 +1,7 @@
 (* C01 — Two endpoints built on the library interoperate, even across transport loss.
    Statements only.  Nothing else may be added to this file. *)
 From MQ Require Import Base.Prelude Alloc.Alloc Framing.Framing Framing.FramingProofs Conn.Types Conn.ConnRecord Conn.Step
-                       Corr.ConnTrace Conn.Scope Conn.Session Conn.IdsQuota Conn.Own Conn.OwnStep Conn.Run Conn.PairQos Conn.PairQos5 Conn.PairSeq Conn.PairSeq5.
+                       Corr.ConnTrace Conn.Scope Conn.Session Conn.IdsQuota Conn.Own Conn.OwnStep Conn.Run Conn.PairQos Conn.PairQos5 Conn.PairSeq Conn.PairSeq5 Conn.PairConc.
 
 (* what the pair property rests on, each proved for ALL states of one endpoint:
    (i) delivery in any fragmentation is the same byte stream (C09) *)
@@ -146,6 +146,33 @@ Theorem C01_pair_sequence_exactly_once_v5 : forall gs gr ps cs cr,
 Proof. exact run_seq5_ok. Qed.
 Print Assumptions C01_pair_sequence_exactly_once_v5.
 
+(* SEVERAL EXCHANGES IN FLIGHT (v3.1.1, automatic responses, intact FIFO links): the system is two endpoints and two
+   queues; an action is "the application publishes a QoS 1/2 message" (skipped when its own precondition fails: identifier
+   out of range, in use or awaited), "the link hands the next packet to the receiver" or "... to the sender" (skipped when
+   the queue is empty); [run_sched] answers None when a call panics, reports an error, or does not answer a packet as the
+   protocol says.  For EVERY schedule from a state satisfying the pair invariant [inv] (packets in flight <-> awaited sets
+   of the sender and handled set of the receiver, identifiers in flight distinct, published = delivered ++ PUBLISHes still
+   in flight) the run succeeds and the invariant holds again ... *)
+Theorem C01_pair_every_schedule_succeeds : forall gs gr l s,
+  inv gs gr s -> Forall good_act l -> exists s', run_sched gs gr s l = Some s' /\ inv gs gr s'.
+Proof. exact sched_ok. Qed.
+Print Assumptions C01_pair_every_schedule_succeeds.
+
+(* ... and when the links are then left to drain — at most [measure] rounds of one delivery each way — both are empty
+   and the receiving application has been notified of exactly the published messages, once each, in order *)
+Theorem C01_pair_concurrent_exactly_once : forall gs gr l s,
+  inv gs gr s -> Forall good_act l ->
+  exists s1 s2, run_sched gs gr s l = Some s1 /\ run_sched gs gr s1 (drain_links (measure s1)) = Some s2 /\
+                inv gs gr s2 /\ qsr s2 = [] /\ qrs s2 = [] /\ delivered s2 = published s1.
+Proof. exact concurrent_exactly_once. Qed.
+Print Assumptions C01_pair_concurrent_exactly_once.
+
+Theorem C01_pair_invariant_after_handshake : forall gs gr c1 c2,
+  OWN gs c1 -> ready c1 -> c_auto_pub c1 = true -> ready c2 -> c_auto_pub c2 = true -> c_qos2 c2 = [] ->
+  inv gs gr (mkSys c1 c2 [] [] [] []).
+Proof. exact inv_init. Qed.
+Print Assumptions C01_pair_invariant_after_handshake.
+
 (* the tie of those statements to the step function that the correspondence runs against the code *)
 Theorem C01_send_call_is_send_publish : forall g c p q, c_version c = V311 -> v311_pub p q ->
   step g c (OSend p) = bindr (send_publish_v311 c p) (fun '(c', e) => Ok (c', e, [])).
@@ -161,16 +188,16 @@ Theorem C01_recv_call_is_deliver : forall g c bytes p hdr body pb' rest,
 Proof. exact step_recv_is_deliver. Qed.
 Print Assumptions C01_recv_call_is_deliver.
 
-(* C01_partial: the system-level statements over ALL workloads — several exchanges in flight, every delivery
-   interleaving, fragmentation and loss point, v5.0 with its limits, manual responses; no protocol error on either
-   side, termination, exactly-once / at-least-once / at-most-once delivery with the original topic and payload,
-   quiescence (all identifiers released, stores empty, full vacancy) — are decided on PAIRS OF REAL OBJECTS by
-   the monitor mon_c01 (harness conn_duo.rs wires a client and a server object by two byte
-   queues) and both objects are tied to the model by the full-digest correspondence chk_duo.  What is PROVED of the
-   pair is the single-exchange completion above (one QoS 1 / QoS 2 exchange on an intact v3.1.1 or v5.0 link, from every
-   admissible pair of states) together with the per-endpoint facts (i)-(iv) and those under C05-C16; a pair invariant
-   with a termination measure for arbitrarily many concurrent exchanges and loss points is not part of this
-   development. *)
+(* C01_partial: what is PROVED of the pair is everything above: single exchanges (both versions), any sequence of them
+   (both versions), and — v3.1.1, automatic responses — ANY schedule with several exchanges in flight on intact FIFO
+   links, by a pair invariant and a termination measure.  NOT proved: transport loss and session resumption inside the
+   pair theorem (the per-endpoint facts (ii)-(iii) and C06/C10/C16 say what each side keeps; that the retransmissions of
+   both sides then meet again in the pair invariant is not shown), manual responses, several v5.0 exchanges in flight
+   and topic aliases.  Those — with arbitrary fragmentation, loss points (incl. mid-frame) and workloads from both sides —
+   are decided on PAIRS OF REAL OBJECTS by the monitor mon_c01 (harness conn_duo.rs wires a client and a server object by
+   two byte queues): no protocol error on either side, termination, exactly-once / at-least-once / at-most-once delivery
+   with the original topic and payload, quiescence (all identifiers released, stores empty, full vacancy); both objects
+   are tied to the model by the full-digest correspondence chk_duo. *)
 
 (* the premises of the pair theorems are met by two endpoints after an ordinary handshake *)
 Example C01_pair_nonvacuous :
@@ -274,6 +301,35 @@ Example C01_pair_sequence_v5_nonvacuous :
       | Done cs' cr' d => d = ps /\ vacancy cs' = Some 2 /\ c_publish_recv cr' = [] /\ c_qos2 cr' = [] /\ c_store cs' = [] /\
                           a_pool (c_pid cs') = [(1, 65535)]
       | _ => False
+      end
+  | _, _ => False
+  end.
+Proof. vm_compute. repeat split; reflexivity. Qed.
+
+
+(* the concurrent theorem is not vacuous: four messages published while earlier ones are still in flight (three
+   exchanges open at once), deliveries interleaved, one publication skipped because its identifier is still in use;
+   after draining everything has arrived once, in order *)
+Example C01_pair_concurrent_nonvacuous :
+  let gs := mkCfg RClient 65535 2 in
+  let gr := mkCfg RServer 65535 2 in
+  let cn := mkPkt 1 V311 0 0 false false [] None 0 0 14 false 0 true 0 None None None None None in
+  let ca := mkPkt 2 V311 0 0 false false [] None 0 0 4 true 0 false 0 None None None None None in
+  let ops_s := [OSetAutoPub true; OSend cn; ORecv [32;2;0;0] (PROk ca)] in
+  let ops_r := [OSetAutoPub true; ORecv [16;12;0;4;77;81;84;84;4;2;0;0;0;0] (PROk cn); OSend ca] in
+  let pb := fun id q pay => mkPkt 3 V311 id q false false [116] None pay 0 (7 + pay) false 0 false 0 None None None None None in
+  let sched := [Pub (pb 1 2 0); Pub (pb 2 1 1); ToR; Pub (pb 3 2 2); ToS; ToR; ToR; Pub (pb 1 1 9); ToS; Pub (pb 4 1 3)] in
+  match run_state gs (conn_new gs V311) ops_s, run_state gr (conn_new gr V311) ops_r with
+  | Some c1, Some c2 =>
+      match run_sched gs gr (mkSys c1 c2 [] [] [] []) sched with
+      | Some s1 =>
+          length (qsr s1) = 2%nat /\ length (qrs s1) = 1%nat /\      (* a PUBREL and a PUBLISH one way, a PUBREC the other *)
+          match run_sched gs gr s1 (drain_links (measure s1)) with
+          | Some s2 => published s1 = [pb 1 2 0; pb 2 1 1; pb 3 2 2; pb 4 1 3] /\ delivered s2 = published s1 /\
+                       qsr s2 = [] /\ qrs s2 = [] /\ c_qos2 (cr s2) = [] /\ a_pool (c_pid (cs s2)) = [(1, 65535)]
+          | None => False
+          end
+      | None => False
       end
   | _, _ => False
   end.
